@@ -20,7 +20,7 @@ for line in open('/verif/build/mcov/model_prof.ml'):
     pts=re.findall(r'\(\* (\d+) \*\)',line)
     if pts and cur:
         z=sum(1 for p in pts if p=='0')
-        panic=sum(1 for _ in re.finditer(r'\(\* 0 \*\)[^(]*(Panic|HPanic|mpanic|Panicked)',line))
+        panic=z if re.search(r'Panic|mpanic',line) else 0
         s=stats.setdefault(cur,[0,0,0]); s[0]+=z; s[1]+=len(pts); s[2]+=panic
 tot=sum(t for z,t,p in stats.values()); zero=sum(z for z,t,p in stats.values()); pz=sum(p for z,t,p in stats.values())
 print("instrumentation points: %d, unexecuted: %d (of which panic arms: %d)"%(tot,zero,pz))
